@@ -27,6 +27,7 @@ type Result struct {
 	Query    string
 	CacheHit bool
 	vcReplay *replayInfo
+	havoc    bool
 }
 
 var reStrLit = regexp.MustCompile(`\(mkstr \(- (\d+)\) 0 `)
@@ -336,6 +337,11 @@ func cacheDir() string { return filepath.Join(verifDir(), ".cache") }
 
 func (r *Runner) Solve(vc *VC, o *Obl, idx int) *Result {
 	res := &Result{Obl: o, Raw: map[string]string{}, vcReplay: vc.replay}
+	for _, n := range vc.notes {
+		if strings.HasPrefix(n, "havoc:") {
+			res.havoc = true
+		}
+	}
 	q, err := vc.buildQuery(o)
 	if err != nil {
 		res.Status = "error"
